@@ -7,6 +7,8 @@
   definition and breaks the equality.
 -/
 import GFO.Gen.PopIterGen
+import GFO.Gen.CoreGenCheck
+import GFO.Proofs.Local
 namespace GFO.Gen.PopIt
 open GFO
 
@@ -40,6 +42,49 @@ theorem es_backend_steps (cfg : ESCfg) :
 theorem de_constraint_loop_unfold (g : Geo) (e : Rat) (fuel : Nat) (p : Pos) (tape : Tape) :
     constraintLoop g e (fuel + 1) p tape = DE_constraint_round g e fuel (constraintLoop g e fuel) p tape := by
   rw [constraintLoop]; rfl
+/-- C08: a round of DE's / GA's `_constraint_loop` returns exactly on a POSITIVE verdict - with the position that was tested -; a round
+    that goes round again has consumed a negative verdict and the draws of one `move_climb`, so the tape is strictly shorter -/
+theorem de_constraint_round_progress (g : Geo) (e : Rat) (fuel : Nat) (again : Pos → Tape → Except Err (Pos × Tape)) (p : Pos) (tape : Tape) :
+    (∀ t1, askFeas p tape = .ok (true, t1) → DE_constraint_round g e fuel again p tape = .ok (p, t1)) ∧
+    (∀ t1 q t2, askFeas p tape = .ok (false, t1) → moveClimb g (some p) (some e) fuel t1 = .ok (q, t2) →
+      DE_constraint_round g e fuel again p tape = again q t2 ∧ t2.length < tape.length ∧ tape = Draw.feas p false :: t1) := by
+  refine ⟨fun t1 h1 => ?_, fun t1 q t2 h1 h2 => ?_⟩
+  · simp [DE_constraint_round, bind, Except.bind, pure, Except.pure, h1]
+  · obtain ⟨hl, ht⟩ := GFO.Gen.Core.askFeas_len h1
+    have hs := (moveClimb_spec h2).1.length_le
+    refine ⟨?_, by omega, ht⟩
+    simp [DE_constraint_round, bind, Except.bind, h1, h2]
+
+/-- C02 / C08 for the loop as a whole (by induction over the rounds, through the generated round function): whatever position the
+    constraint loop returns was TESTED on this tape with a positive verdict - the loop has no exit that skips the constraint test -/
+theorem de_constraint_loop_returns_tested (g : Geo) (e : Rat) (fuel : Nat) (p q : Pos) (tape rest : Tape)
+    (h : constraintLoop g e fuel p tape = .ok (q, rest)) : Draw.feas q true ∈ tape := by
+  induction fuel generalizing p tape with
+  | zero => simp [constraintLoop] at h
+  | succ n ih =>
+    rw [de_constraint_loop_unfold] at h
+    cases h1 : askFeas p tape with
+    | error er => simp [DE_constraint_round, bind, Except.bind, h1] at h
+    | ok a =>
+      obtain ⟨ok, t1⟩ := a
+      obtain ⟨_, ht⟩ := GFO.Gen.Core.askFeas_len h1
+      cases ok with
+      | true =>
+        rw [(de_constraint_round_progress g e n _ p tape).1 t1 h1] at h
+        simp only [Except.ok.injEq, Prod.mk.injEq] at h
+        obtain ⟨rfl, rfl⟩ := h
+        rw [ht]; exact List.mem_cons_self
+      | false =>
+        cases h2 : moveClimb g (some p) (some e) n t1 with
+        | error er => simp [DE_constraint_round, bind, Except.bind, h1, h2] at h
+        | ok b =>
+          obtain ⟨q', t2⟩ := b
+          rw [((de_constraint_round_progress g e n _ p tape).2 t1 q' t2 h1 h2).1] at h
+          have hm := ih q' t2 h
+          have hs := (moveClimb_spec h2).1
+          rw [ht]
+          exact List.mem_cons_of_mem _ (hs.subset hm)
+
 theorem de_iterate_eq (cfg : DECfg) (s : PopSt) : DE_iterate cfg s = deIterate cfg s := rfl
 theorem de_init_pos_eq (cfg : DECfg) (s : PopSt) : DE_init_pos cfg s = ptInitPos s := rfl
 theorem de_evaluate_eq (cfg : DECfg) (s : PopSt) (score : F) : DE_evaluate cfg s score = psoEvaluate cfg.member s score := rfl
